@@ -99,6 +99,18 @@ func eClosure(nfaStates set.Set[*nfa.State]) *State {
 		return dfaState.NFAStates[i].ID < dfaState.NFAStates[j].ID
 	})
 
+	acceptingRules := make(map[int]bool)
+	for _, nfaState := range dfaState.NFAStates {
+		if nfaState.Accept {
+			acceptingRules[nfaState.Rule] = true
+		}
+	}
+	for _, nfaState := range dfaState.NFAStates {
+		if nfaState.NonGreedy && acceptingRules[nfaState.Rule] {
+			dfaState.NonGreedyAccept = true
+		}
+	}
+
 	return dfaState
 }
 
